@@ -19,6 +19,11 @@ CLAIMED = {
             "Seeded search over call histories x virtual-clock moves (incl. backward jumps and limit boundaries) against the real Telomere; self-deadlock is an exact verdict from the simulated lock, non-return a deterministic line-budget verdict. Sampling, not proof.",
             "Trusts CPython, sys.settrace, the oracle in props/c09.py; reset() modelled as re-initialisation; the exact-boundary instant of time limits is not asserted.",
             "DESIGN 4 C09"),
+    "C05": ("exploration",
+            "deterministic simulation: real threads under a seeded line-granularity scheduler (baton passing + sys.settrace), sim locks/timers, Wing-Gong linearizability check against the real store run sequentially",
+            "Seeded search over thread interleavings at source-line granularity of 2-3 tasks x 1-3 store operations (plus the store's own regeneration thread on a virtual timer); each explored schedule must be deadlock-free (exact verdict), keep balances non-negative and be linearizable. Sampling of schedules, not enumeration.",
+            "Trusts CPython, sys.settrace, the scheduler in opsim/sched.py and the checker in opsim/lin.py; a transfer is specified as two atomic steps; the real store run single-threaded is the sequential specification (its semantics are pinned by C04).",
+            "DESIGN 4 C05"),
 }
 
 
